@@ -25,7 +25,7 @@ import os
 import sys
 
 sys.path.insert(0, os.path.dirname(os.path.dirname(os.path.abspath(__file__))))
-from sa import core, pyfacts as pf, cfg as cfgm, ffi, symlen  # noqa: E402
+from sa import core, pyfacts as pf, cfg as cfgm, ffi, symlen, guards  # noqa: E402
 from sa.selftest import Mutant  # noqa: E402
 
 PROP = "C18"
@@ -393,6 +393,10 @@ def rule_param_guards(chk, prog):
     for (rel, qual), names in sorted(PARAM_GUARDS.items()):
         fn = prog.module(rel).func(qual)
         tests = _guard_tests(fn)
+        # guards of helpers the function calls, with the helper's parameters replaced by the arguments
+        fg = guards.FunctionGuards(fn, guards.Resolver(prog.module(rel).ast))
+        for ats in fg.atoms.values():
+            tests += [e for e, _ in ats]
         # a ladder `if p in [...] ... else: raise` rejects through every test of the ladder
         for name in names:
             inst = "%s:%s rejects invalid %s" % (rel, qual, name)
@@ -597,177 +601,28 @@ def rule_expnt(chk, prog):
 #         collect_guards() (`C18_DUMP_GUARDS=1 python3 checks/c18.py` prints the current table) and is
 #         compared as a multiset lower bound: a guard may be added, none may disappear.
 # ----------------------------------------------------------------------------
-GUARD_TOKENS = (("c_contiguous", "contig"), ("f_contiguous", "contig"), ("contiguous", "contig"),
-                ("shape", "shape"), ("ndim", "ndim"), ("size", "size"), ("dtype", "dtype"), ("nfeat", "nfeat"))
-MAKE_CONTIG = {"np.ascontiguousarray", "np.asfortranarray", "np.require", "numpy.ascontiguousarray"}
-
-
-def _root(e):
-    """x.flags.c_contiguous -> 'x' ; self.a.shape -> 'self.a' ; len(x) handled by caller"""
-    parts = []
-    while isinstance(e, ast.Attribute):
-        parts.append(e.attr)
-        e = e.value
-    if isinstance(e, ast.Name):
-        parts.append(e.id)
-        parts.reverse()
-        return parts
-    return None
-
-
-def _test_subjects(test, subst=None):
-    """test -> {subject text: set(kinds)} ; subject = root expression before the array attribute"""
-    out = {}
-    for n in ast.walk(test):
-        if isinstance(n, ast.Attribute):
-            chain = _root(n)
-            if not chain:
-                continue
-            for i, part in enumerate(chain):
-                kind = dict(GUARD_TOKENS).get(part)
-                if kind and i > 0:
-                    if part == "size" and i + 1 < len(chain):
-                        continue
-                    subj = ".".join(chain[:i])
-                    if chain[i - 1] == "flags":
-                        subj = ".".join(chain[: i - 1])
-                    if not subj:
-                        continue
-                    if subst and subj in subst:
-                        for s2 in subst[subj]:
-                            out.setdefault(s2, set()).add(kind)
-                    else:
-                        out.setdefault(subj, set()).add(kind)
-                    break
-        elif isinstance(n, ast.Call) and pf.call_name(n) == "len" and n.args:
-            subj = pf.src(n.args[0])
-            if subst and subj in subst:
-                for s2 in subst[subj]:
-                    out.setdefault(s2, set()).add("len")
-            else:
-                out.setdefault(subj, set()).add("len")
-    return out
-
-
-import re as _re  # noqa: E402
-
-_CINT = _re.compile(r"(?:ctypes\.)?c_(?:int|long|size_t|int32|int64)\((\w+)\)$")
-
-
-def _lin_of(e, names):
-    """expression over the given names and integer literals -> symlen.Lin or None"""
-    L = symlen.Lin
-    if isinstance(e, ast.Constant) and isinstance(e.value, int) and not isinstance(e.value, bool):
-        return L.c(e.value)
-    if isinstance(e, ast.Name) and e.id in names:
-        return L.atom(names[e.id][0])
-    if isinstance(e, ast.BinOp) and isinstance(e.op, (ast.Add, ast.Sub)):
-        a, b = _lin_of(e.left, names), _lin_of(e.right, names)
-        if a is None or b is None:
-            return None
-        return a + b if isinstance(e.op, ast.Add) else a - b
-    if isinstance(e, ast.BinOp) and isinstance(e.op, ast.Mult):
-        a, b = _lin_of(e.left, names), _lin_of(e.right, names)
-        if a is not None and b is not None:
-            if a.is_const():
-                return b.scale(a.const)
-            if b.is_const():
-                return a.scale(b.const)
-    return None
-
-
-def _linear_relations(test, names):
-    """assert test -> canonical strings `<lin> <= 0` / `<lin> == 0` for each comparison link that is linear in
-    the scalar call arguments (a < b is a + 1 <= b for integers); conjunctions are split"""
-    out = []
-    if isinstance(test, ast.BoolOp) and isinstance(test.op, ast.And):
-        for v in test.values:
-            out += _linear_relations(v, names)
-        return out
-    if not isinstance(test, ast.Compare):
-        return out
-    terms = [test.left] + list(test.comparators)
-    for op, a, b in zip(test.ops, terms[:-1], terms[1:]):
-        la, lb = _lin_of(a, names), _lin_of(b, names)
-        if la is None or lb is None or (la.is_const() and lb.is_const()):
-            continue
-        if isinstance(op, ast.LtE):
-            d, rel = la - lb, "<="
-        elif isinstance(op, ast.Lt):
-            d, rel = la - lb + 1, "<="
-        elif isinstance(op, ast.GtE):
-            d, rel = lb - la, "<="
-        elif isinstance(op, ast.Gt):
-            d, rel = lb - la + 1, "<="
-        elif isinstance(op, ast.Eq):
-            d, rel = la - lb, "=="
-            if repr(-d) < repr(d):
-                d = -d
-        else:
-            continue
-        out.append("%r %s 0" % (d, rel))
-    return out
-
-
-def _node_guards(node):
-    """CFG node -> {subject: kinds} if the node is a guard (assert / if ...: raise / for x in [..]: assert)"""
-    a = node.ast
-    if a is None:
-        return {}
-    if node.kind == "stmt" and isinstance(a, ast.Assert):
-        return _test_subjects(a.test)
-    if node.kind == "test" and isinstance(a, ast.If) and cfgm._raises(a.body) and not a.orelse:
-        return _test_subjects(a.test)
-    if node.kind == "iter" and isinstance(a, ast.For):
-        # for arr in [a, b, c]: assert arr.flags.c_contiguous   /  for arr, dt in zip([a, b], [..]): ...
-        it = a.iter
-        var = a.target
-        if isinstance(it, ast.Call) and pf.call_name(it) == "zip" and it.args and isinstance(var, ast.Tuple):
-            it, var = it.args[0], var.elts[0]
-        if isinstance(it, (ast.List, ast.Tuple)) and isinstance(var, ast.Name) and it.elts:
-            subst = {var.id: [pf.src(e) for e in it.elts]}
-            out = {}
-            for st in a.body:
-                if isinstance(st, ast.Assert):
-                    for k, v in _test_subjects(st.test, subst).items():
-                        out.setdefault(k, set()).update(v)
-                elif isinstance(st, ast.If) and cfgm._raises(st.body) and not st.orelse:
-                    for k, v in _test_subjects(st.test, subst).items():
-                        out.setdefault(k, set()).update(v)
-            return out
-    if node.kind == "stmt" and isinstance(a, ast.Assign) and len(a.targets) == 1 and isinstance(a.targets[0], ast.Name) \
-            and isinstance(a.value, ast.Call) and (pf.call_name(a.value) in MAKE_CONTIG or (
-                pf.call_name(a.value) in ("np.asarray", "np.array", "np.zeros", "np.empty", "np.ones")
-                and any(k.arg == "order" for k in a.value.keywords))):
-        return {a.targets[0].id: {"contig"}}
-    if node.kind == "stmt" and isinstance(a, ast.Assign) and len(a.targets) == 1 and isinstance(a.targets[0], ast.Name) \
-            and isinstance(a.value, ast.Call) and pf.call_name(a.value) in (
-                "np.zeros", "np.empty", "np.ones", "np.zeros_like", "np.empty_like"):
-        # allocated here with a computed shape: satisfies a shape / contiguity requirement on that name
-        return {a.targets[0].id: {"contig", "shape"}}
-    if node.kind == "stmt" and isinstance(a, ast.Expr) and isinstance(a.value, ast.Call) \
-            and isinstance(a.value.func, ast.Attribute) and a.value.func.attr.startswith("_check") \
-            and pf.is_self_attr(a.value.func) and a.value.args:
-        return {pf.src(a.value.args[0]): {"checked:" + a.value.func.attr}}
-    return {}
+_CINT = __import__("re").compile(r"(?:ctypes\.)?c_(?:int|long|size_t|int32|int64|uint)\((\w+)\)$")
 
 
 def collect_guards(tree, eng, prog):
-    """-> {"rel::qualname": sorted list of "ident:kind"} for functions that make native calls and for the
-    functions of the validator modules; ident = p<k> (k-th parameter), c:<callee>.<cparam> (local passed
-    to a native call) or the self.attr text"""
+    """-> {"rel::qualname": sorted list of signatures} for every function that makes a native call and for the
+    functions of the validator modules (feat_normalizer, xc_evaluator).
+      <ident>:<kind>   kind in contig/shape/ndim/size/dtype/nfeat, guaranteed on every path to the native call(s)
+                       that receive the array (or to the normal exit when it is not handed to C)
+      rel:<linear form> <= 0 | == 0    relation between integer counts handed to the native call
+    ident = c:<callee>#<k> (array passed as k-th argument of that C function; one signature per callee
+    alternative), p:<parameter name> (not handed to C), or the self.attr text.  See sa.guards for the spellings
+    that are recognised as the same guard."""
     by_fn = {}
     for s in eng.sites:
         by_fn.setdefault((s.rel, s.func), []).append(s)
-    targets = {}
-    for (rel, qual), sites in by_fn.items():
-        targets[(rel, qual)] = sites
+    targets = dict(by_fn)
     for rel in (FN, XE):
-        mod = prog.module(rel)
-        for n in ast.walk(mod.ast):
+        for n in ast.walk(prog.module(rel).ast):
             if isinstance(n, ast.FunctionDef):
                 targets.setdefault((rel, pf.qualname(n)), [])
     out = {}
+    resolvers = {}
     for (rel, qual), sites in sorted(targets.items()):
         if qual == "<module>":
             continue
@@ -779,81 +634,67 @@ def collect_guards(tree, eng, prog):
                 break
         if fn is None:
             continue
-        g = cfgm.CFG(fn)
-        params = [a.arg for a in fn.args.args]
-        if params and params[0] in ("self", "cls"):
-            params = params[1:]
-        # subjects passed to native calls: subject text -> [(call node id, "callee.cparam")]
-        passed = {}
+        if rel not in resolvers:
+            resolvers[rel] = guards.Resolver(mod_ast)
+        fg = guards.FunctionGuards(fn, resolvers[rel])
+        g = fg.cfg
+        params = [a.arg for a in fn.args.args + fn.args.kwonlyargs]
+        passed = {}   # subject text -> {(call node id, "callee#k")}
+        scalars = {}  # callee -> {python name: ["callee#k"]}
+        call_nodes = set()
         for s in sites:
             cn = g.stmt_of_expr(s.node)
+            if cn is not None:
+                call_nodes.add(cn.id)
             for c, al in s.pairs:
                 if c is None or al is None:
                     continue
-                proto = eng.c.lookup(c[1][1], c[0].handles.get(c[1][0]))
-                if proto is None:
-                    continue
+                callee = c[1][1]
                 for i, it in enumerate(al):
                     src = it[1]
-                    if ".ctypes" in src and i < len(proto.params):
-                        subj = src.split(".ctypes")[0]
-                        ent = (cn.id if cn else None, "%s.%s" % (s.callees[0], proto.params[i][0]))
-                        if ent not in passed.setdefault(subj, []):
-                            passed[subj].append(ent)
-        node_sigs = {}
-        for nd in g.nodes:
-            gs = _node_guards(nd)
-            if gs:
-                node_sigs[nd.id] = gs
-        sigs = []
-        # scalar relations between counts handed to the native call: assert a + b <= c, with every name an
-        # argument `c_int(name)`; canonical linear form over the C parameter names
-        scalars = {}
-        for s_ in sites:
-            cn = g.stmt_of_expr(s_.node)
-            for c, al in s_.pairs:
-                if c is None or al is None:
-                    continue
-                proto = eng.c.lookup(c[1][1], c[0].handles.get(c[1][0]))
-                if proto is None:
-                    continue
-                for i, it in enumerate(al):
-                    m_ = _CINT.match(it[1])
-                    if m_ and i < len(proto.params) and m_.group(1).isidentifier():
-                        scalars.setdefault(m_.group(1), (proto.params[i][0], cn.id if cn else None))
-        if scalars:
-            rel_nodes = {}
-            for nd in g.nodes:
-                if nd.kind == "stmt" and isinstance(nd.ast, ast.Assert):
-                    for canon in _linear_relations(nd.ast.test, scalars):
-                        rel_nodes.setdefault(canon, set()).add(nd.id)
-            for canon, ids in sorted(rel_nodes.items()):
-                dsts = sorted({d for _, d in scalars.values() if d is not None}) or [g.exit.id]
-                if all(g.must_pass(lambda nd, ids=ids: nd.id in ids, dst=d)[0] for d in dsts):
-                    sigs.append("rel:" + canon)
-        all_subjects = {}
-        for nid, gs in node_sigs.items():
-            for subj, kinds in gs.items():
-                all_subjects.setdefault(subj, set()).update(kinds)
-        for subj, kinds in sorted(all_subjects.items()):
-            for kind in sorted(kinds):
-                def pred(nd, subj=subj, kind=kind):
-                    return kind in node_sigs.get(nd.id, {}).get(subj, ())
-                dsts = [d for d, _ in passed.get(subj, []) if d is not None] or [g.exit.id]
-                if not all(g.must_pass(pred, dst=d)[0] for d in dsts):
-                    continue  # present on some paths only: not counted as a guard
-                if subj in params:
-                    ident = "p%d" % params.index(subj)
-                elif subj in passed:
-                    ident = "c:" + passed[subj][0][1]
-                elif subj.startswith("self."):
-                    ident = subj
-                else:
-                    continue
-                sigs.append("%s:%s" % (ident, kind))
+                    if ".ctypes" in src:
+                        passed.setdefault(src.split(".ctypes")[0], set()).add((cn.id if cn else None, "c:%s#%d" % (callee, i)))
+                    m_ = _CINT.match(src)
+                    if m_:
+                        scalars.setdefault(callee, {}).setdefault(m_.group(1), []).append("%s#%d" % (callee, i))
+        sigs = set()
+        nk = fg.node_kinds()
+        pairs = {}
+        for nid, d in nk.items():
+            for subj, kinds in d.items():
+                for k in kinds:
+                    pairs.setdefault((subj, k), set()).add(nid)
+        for (subj, kind), ids in sorted(pairs.items()):
+            dsts = sorted({d for d, _ in passed.get(subj, ()) if d is not None}) or [g.exit.id]
+            if not fg.guaranteed(ids, dsts):
+                continue
+            if subj in ("self", "cls"):
+                continue
+            if subj in passed:
+                idents = sorted({i for _, i in passed[subj]})
+            elif subj in params:
+                idents = ["p:" + subj]
+            elif subj.startswith("self."):
+                idents = [subj]
+            else:
+                continue
+            for ident in idents:
+                sigs.add("%s:%s" % (ident, kind))
+        for callee, names in sorted(scalars.items()):
+            for nid_set, canon in _relation_sets(fg, names):
+                if fg.guaranteed(nid_set, sorted(call_nodes) or [g.exit.id]):
+                    sigs.add("rel:" + canon)
         if sigs:
             out["%s::%s" % (rel, qual)] = sorted(sigs)
     return out
+
+
+def _relation_sets(fg, names):
+    by = {}
+    for nid, rels in fg.node_relations(names).items():
+        for r in rels:
+            by.setdefault(r, set()).add(nid)
+    return [(ids, r) for r, ids in sorted(by.items())]
 
 
 def rule_guards(chk, eng, prog):
@@ -865,7 +706,7 @@ def rule_guards(chk, eng, prog):
         rel, qual = key.split("::")
         if not chk.tree.exists(rel):
             raise core.AnalysisError("guard table: module %s vanished" % rel)
-        have = list(cur.get(key, []))
+        have = set(cur.get(key, []))
         if key not in cur:
             found = any(isinstance(n, ast.FunctionDef) and pf.qualname(n) == qual for n in ast.walk(chk.tree.py(rel)))
             if not found:
@@ -873,88 +714,566 @@ def rule_guards(chk, eng, prog):
         for sig in want:
             inst = "%s %s" % (key, sig)
             if sig in have:
-                have.remove(sig)
                 chk.ok("guards", inst)
-            else:
-                ident, kind = sig.split(":", 1)
-                if ident == "rel":
-                    chk.violation("guards", rel, qual, "guard %s" % sig, 0,
-                                  "on the pinned tree every path to the native call asserted the relation `%s` between "
-                                  "the counts it passes (names are the C parameters); no assert on every path implies "
-                                  "it in that form any more" % kind, instance=inst)
-                    continue
-                what = {"p": "parameter #%s" % ident[1:], "c": "the array passed as C parameter %s" % ident[2:],
-                        "s": ident}[ident[0]]
+                continue
+            ident, kind = sig.split(":", 1) if not sig.startswith(("c:", "p:")) else \
+                (sig[: sig.index(":", 2)], sig[sig.index(":", 2) + 1:])
+            if ident == "rel":
                 chk.violation("guards", rel, qual, "guard %s" % sig, 0,
-                              "on the pinned tree every path to the %s passed a %s check on %s (assert / raise); "
-                              "that guard no longer dominates it"
-                              % ("native call" if ident[0] == "c" or any(x.startswith("c:") for x in want) else "exit",
-                                 kind, what), instance=inst)
+                              "on the pinned tree every path to the native call guaranteed the relation `%s` between "
+                              "the integer arguments it passes (callee#position); no assert / raising test on every "
+                              "path implies it any more" % kind, instance=inst)
+                continue
+            what = ("the array passed as argument %s of %s" % (ident[2:].split("#")[1], ident[2:].split("#")[0])
+                    if ident.startswith("c:") else "parameter `%s`" % ident[2:] if ident.startswith("p:") else ident)
+            chk.violation("guards", rel, qual, "guard %s" % sig, 0,
+                          "on the pinned tree every path to the %s guaranteed a %s check on %s (assert, raising test, "
+                          "normalising re-binding, or a helper doing so); that is no longer the case"
+                          % ("native call" if ident.startswith("c:") else "exit", kind, what), instance=inst)
 
 
 FROZEN_GUARDS = {
-    'ciderpress/dft/baselines.py::get_libxc_gga_baseline': ['c:get_gga_baseline.exc:contig', 'c:get_gga_baseline.exc:shape', 'c:get_gga_baseline.vrho:contig', 'c:get_gga_baseline.vrho:shape', 'c:get_gga_baseline.vsigma:contig', 'c:get_gga_baseline.vsigma:shape', 'p1:contig', 'p2:contig', 'p2:shape'],
-    'ciderpress/dft/baselines.py::get_libxc_lda_baseline': ['c:get_lda_baseline.exc:contig', 'c:get_lda_baseline.exc:shape', 'c:get_lda_baseline.vrho:contig', 'c:get_lda_baseline.vrho:shape', 'p1:contig'],
-    'ciderpress/dft/baselines.py::get_libxc_mgga_baseline': ['c:get_mgga_baseline.exc:contig', 'c:get_mgga_baseline.exc:shape', 'c:get_mgga_baseline.vrho:contig', 'c:get_mgga_baseline.vrho:shape', 'c:get_mgga_baseline.vsigma:contig', 'c:get_mgga_baseline.vsigma:shape', 'c:get_mgga_baseline.vtau:contig', 'c:get_mgga_baseline.vtau:shape', 'p1:contig', 'p2:contig', 'p2:shape'],
-    'ciderpress/dft/debug_numint.py::get_nonlocal_features': ['c:debug_numint_vj.Fvec:contig', 'c:debug_numint_vj.Fvec:shape', 'p1:contig', 'p4:contig'],
-    'ciderpress/dft/feat_normalizer.py::FeatNormalizerList._check_shape': ['p0:ndim', 'p0:shape'],
-    'ciderpress/dft/feat_normalizer.py::FeatNormalizerList.get_derivative_of_normed_features': ['p0:checked:_check_shape', 'p1:checked:_check_shape'],
-    'ciderpress/dft/feat_normalizer.py::FeatNormalizerList.get_derivative_wrt_unnormed_features': ['p0:checked:_check_shape', 'p1:checked:_check_shape'],
-    'ciderpress/dft/feat_normalizer.py::FeatNormalizerList.get_normalized_feature_vector': ['p0:checked:_check_shape'],
-    'ciderpress/dft/grids_indexer.py::AtomicGridsIndexer.reduce_angc_ylm_': ['p0:contig', 'p0:dtype', 'p0:shape', 'p1:contig', 'p1:dtype', 'p1:shape', 'rel:nalpha + offset - stride <= 0', 'self.all_weights:size'],
-    'ciderpress/dft/lcao_convolutions.py::ATCBasis.__init__': ['p0:contig', 'p1:contig', 'p2:contig', 'p3:contig', 'p4:contig'],
-    'ciderpress/dft/lcao_convolutions.py::ATCBasis.bas': ['c:get_atco_bas.bas:contig'],
-    'ciderpress/dft/lcao_convolutions.py::ATCBasis.convert_rad2orb_': ['p0:contig', 'p0:dtype', 'p0:ndim', 'p0:shape', 'p1:contig', 'p1:dtype', 'p1:ndim', 'p1:shape', 'p2:contig', 'p2:dtype', 'p2:ndim', 'p2:size', 'p3:contig', 'p3:dtype', 'rel:nalpha + offset - stride <= 0'],
-    'ciderpress/dft/lcao_convolutions.py::ATCBasis.env': ['c:get_atco_env.env:contig'],
-    'ciderpress/dft/lcao_convolutions.py::ConvolutionCollection.__init__': ['c:generate_convolution_collection.alpha_norms:size', 'c:generate_convolution_collection.icontrib_ids:len'],
-    'ciderpress/dft/lcao_convolutions.py::ConvolutionCollection.multiply_atc_integrals': ['p0:contig', 'p0:shape', 'p1:contig', 'p1:shape'],
-    'ciderpress/dft/lcao_convolutions.py::ConvolutionCollectionK.multiply_atc_integrals': ['p0:contig', 'p0:shape', 'p1:contig', 'p1:shape'],
-    'ciderpress/dft/lcao_interpolation.py::LCAOInterpolator._compute_spline_ind_order': ['c:compute_spline_ind_order_new.coords:contig', 'c:compute_spline_ind_order_new.coords:shape'],
-    'ciderpress/dft/lcao_interpolation.py::LCAOInterpolator._contract_grad_terms': ['c:contract_grad_terms_parallel.atm_g:contig'],
-    'ciderpress/dft/lcao_interpolation.py::LCAOInterpolator._interpolate_nopar_atom': ['p0:shape', 'p1:shape'],
-    'ciderpress/dft/lcao_interpolation.py::LCAOInterpolator._interpolate_nopar_atom_deriv': ['c:compute_mol_convs_single_new.f_gq:contig', 'c:compute_mol_convs_single_new.f_gq:shape', 'p0:shape', 'p1:shape'],
-    'ciderpress/dft/lcao_interpolation.py::LCAOInterpolator._orb2spline_': ['p1:contig', 'p1:shape', 'p2:contig', 'p2:shape', 'p3:contig', 'rel:nalpha + offset_orb - orb_stride <= 0', 'rel:nalpha + offset_spline - spline_stride <= 0'],
-    'ciderpress/dft/lcao_interpolation.py::LCAOInterpolator._set_num_ai': ['p0:contig', 'p0:shape'],
-    'ciderpress/dft/plans.py::NLDFSplinePlan.get_a2q_fast': ['c:cider_ind_clip.derivi_g:contig', 'c:cider_ind_clip.derivi_g:shape', 'c:cider_ind_clip.di_g:contig', 'c:cider_ind_clip.di_g:shape'],
-    'ciderpress/dft/plans.py::_get_ovlp_fit_interpolation_coefficients': ['c:cider_coefs_gto_gq.alphas:contig', 'c:cider_coefs_gto_gq.dp_ga:contig', 'c:cider_coefs_gto_gq.dp_ga:shape', 'c:cider_coefs_gto_gq.p_ga:contig', 'c:cider_coefs_gto_gq.p_ga:shape', 'p1:contig'],
-    'ciderpress/dft/pwutil.py::_eval_cubic_interp': ['c:eval_cubic_interp.y_g:contig', 'p0:contig', 'p0:dtype', 'p1:contig', 'p1:dtype', 'p2:contig', 'p2:dtype', 'p2:shape'],
-    'ciderpress/dft/pwutil.py::_eval_cubic_spline': ['c:eval_cubic_spline.funcs_ng:contig', 'p1:contig', 'p2:contig', 'p3:contig', 'p3:size'],
-    'ciderpress/dft/pwutil.py::eval_pasdw_funcs': ['c:eval_pasdw_funcs.funcs_ig:contig', 'p0:contig', 'p0:shape', 'p1:contig', 'p2:contig', 'p2:len', 'p3:contig', 'p3:len'],
-    'ciderpress/dft/pwutil.py::mulexp': ['p0:size', 'p1:size', 'p2:size'],
-    'ciderpress/dft/pwutil.py::pasdw_reduce': ['p1:contig', 'p1:size', 'p2:contig', 'p3:contig', 'p4:contig', 'p4:dtype', 'p4:shape'],
-    'ciderpress/dft/pwutil.py::recursive_sph_harm': ['c:recursive_sph_harm_vec.res:contig', 'p1:contig'],
-    'ciderpress/dft/pwutil.py::recursive_sph_harm_deriv': ['c:recursive_sph_harm_deriv_vec.dres:contig', 'c:recursive_sph_harm_deriv_vec.res:contig', 'p1:contig'],
-    'ciderpress/dft/xc_evaluator.py::AntisymRBFEvaluator.__call__': ['p0:ndim', 'p0:shape'],
-    'ciderpress/dft/xc_evaluator.py::GlobalLinearEvaluator.__call__': ['p1:shape', 'p2:shape'],
-    'ciderpress/dft/xc_evaluator.py::KernelEvaluator.__call__': ['p1:shape', 'p2:shape'],
-    'ciderpress/dft/xc_evaluator.py::ModelWithNormalizer.__call__': ['p0:ndim'],
-    'ciderpress/dft/xc_evaluator.py::ModelWithNormalizer.__init__': ['p0:nfeat', 'p1:nfeat'],
-    'ciderpress/dft/xc_evaluator.py::NNEvaluator.__call__': ['p1:shape', 'p2:shape'],
-    'ciderpress/dft/xc_evaluator.py::RBFEvaluator.__call__': ['p0:contig', 'p1:contig', 'p1:shape', 'p2:contig', 'p2:shape'],
-    'ciderpress/dft/xc_evaluator.py::SpinRBFEvaluator.__call__': ['p0:ndim', 'p0:shape'],
-    'ciderpress/dft/xc_evaluator.py::SplineSetEvaluator.__call__': ['p2:shape'],
-    'ciderpress/dft/xc_evaluator.py::SplineSetEvaluator.__init__': ['p1:len', 'p2:len', 'p3:len'],
-    'ciderpress/lib/fft_plan.py::FFTWrapper.call': ['c:read_fft_output.output:contig', 'c:read_fft_output.output:shape', 'p0:shape'],
-    'ciderpress/lib/mpi_fft_plan.py::MPIFFTWrapper.__init__': ['p0:contig'],
-    'ciderpress/lib/mpi_fft_plan.py::MPIFFTWrapper.call': ['p0:dtype', 'p0:shape'],
-    'ciderpress/pyscf/frac_lapl.py::FracLaplBuf.__init__': ['c:initialize_spline_1f1.f:contig', 'c:initialize_spline_1f1.f:contig', 'c:initialize_spline_1f1.f:shape', 'c:initialize_spline_1f1.f:shape'],
-    'ciderpress/pyscf/gen_cider_grid.py::gen_atomic_grids_cider': ['c:recursive_sph_harm_vec.r:contig', 'c:recursive_sph_harm_vec.res:contig'],
-    'ciderpress/pyscf/pbc/sdmx_fft.py::_contract_convolution': ['p1:dtype', 'p2:dtype'],
-    'ciderpress/pyscf/pbc/sdmx_fft.py::_fast_conj': ['p0:contig'],
-    'ciderpress/pyscf/pbc/sdmx_fft.py::_weight_symm_gpts': ['p0:contig', 'p0:dtype', 'p0:ndim', 'p0:shape'],
-    'ciderpress/pyscf/pbc/sdmx_fft.py::_zero_even_edges_fft': ['p0:contig', 'p0:dtype', 'p0:size'],
-    'ciderpress/pyscf/pbc/sdmx_fft.py::fft_fast': ['p0:contig', 'p0:dtype'],
-    'ciderpress/pyscf/pbc/sdmx_fft.py::fft_grad_fast': ['c:run_ffts.xin_list:contig', 'p0:contig', 'p0:dtype', 'p0:ndim', 'p0:shape', 'p2:contig', 'p2:ndim', 'p2:shape'],
-    'ciderpress/pyscf/pbc/sdmx_fft.py::get_ao_recip': ['c:apply_orb_phases.ang_list:contig', 'c:apply_orb_phases.ang_list:shape', 'c:apply_orb_phases.atom_coords:contig', 'c:apply_orb_phases.atom_list:contig', 'c:apply_orb_phases.atom_list:shape', 'p1:contig'],
-    'ciderpress/pyscf/pbc/sdmx_fft.py::get_recip_convolutions': ['c:recip_conv_kernel_ws.conv:contig', 'c:recip_conv_kernel_ws.lat:contig', 'c:recip_conv_kernel_ws.maxqv:contig', 'c:recip_conv_kernel_ws.mesh:contig', 'c:recip_conv_kernel_ws.vq:contig', 'p1:contig', 'p7:dtype', 'p7:ndim', 'p7:shape'],
-    'ciderpress/pyscf/pbc/util.py::FFTInterpolator.interpolate': ['p1:contig', 'p1:dtype', 'p1:shape'],
-    'ciderpress/pyscf/sdmx.py::EXXSphGenerator._contract_ao_to_bas_helper': ['c:SDMXcontract_ao_to_bas_l1.atomx:contig', 'p5:contig'],
-    'ciderpress/pyscf/sdmx.py::EXXSphGenerator._contract_ao_to_bas_single_': ['p7:contig', 'p7:ndim', 'p8:contig', 'p8:ndim'],
-    'ciderpress/pyscf/sdmx.py::EXXSphGenerator._get_ylm': ['c:SDMXylm_loop.atom_coords:contig'],
-    'ciderpress/pyscf/sdmx.py::EXXSphGenerator.get_features': ['c:contract_shl_to_alpha_l1.b:contig', 'c:contract_shl_to_alpha_l1.p:contig', 'c:contract_shl_to_alpha_l1.p:shape', 'p2:contig'],
-    'ciderpress/pyscf/sdmx.py::eval_conv_shells': ['c:SDMXeval_rad_loop.atm:contig', 'c:SDMXeval_rad_loop.bas:contig', 'c:SDMXeval_rad_loop.env:contig', 'p3:contig'],
-    'ciderpress/pyscf/sdmx_slow.py::eval_conv_gto': ['p3:contig'],
-    'ciderpress/pyscf/sdmx_slow.py::eval_conv_gto_fast': ['c:SDMXeval_loop.atm:contig', 'c:SDMXeval_loop.bas:contig', 'c:SDMXeval_loop.env:contig', 'c:SDMXylm_loop.atom_coords:contig', 'p3:contig'],
+    'ciderpress/dft/baselines.py::get_libxc_gga_baseline': [
+        'c:get_gga_baseline#3:contig',
+        'c:get_gga_baseline#4:contig',
+        'c:get_gga_baseline#4:ndim',
+        'c:get_gga_baseline#4:shape',
+        'c:get_gga_baseline#5:contig',
+        'c:get_gga_baseline#5:shape',
+        'c:get_gga_baseline#6:contig',
+        'c:get_gga_baseline#6:shape',
+        'c:get_gga_baseline#7:contig',
+        'c:get_gga_baseline#7:shape',
+    ],
+    'ciderpress/dft/baselines.py::get_libxc_lda_baseline': [
+        'c:get_lda_baseline#3:contig',
+        'c:get_lda_baseline#4:contig',
+        'c:get_lda_baseline#4:shape',
+        'c:get_lda_baseline#5:contig',
+        'c:get_lda_baseline#5:shape',
+    ],
+    'ciderpress/dft/baselines.py::get_libxc_mgga_baseline': [
+        'c:get_mgga_baseline#3:contig',
+        'c:get_mgga_baseline#4:contig',
+        'c:get_mgga_baseline#4:ndim',
+        'c:get_mgga_baseline#4:shape',
+        'c:get_mgga_baseline#6:contig',
+        'c:get_mgga_baseline#6:shape',
+        'c:get_mgga_baseline#7:contig',
+        'c:get_mgga_baseline#7:shape',
+        'c:get_mgga_baseline#8:contig',
+        'c:get_mgga_baseline#8:shape',
+        'c:get_mgga_baseline#9:contig',
+        'c:get_mgga_baseline#9:shape',
+    ],
+    'ciderpress/dft/debug_numint.py::get_nonlocal_features': [
+        'c:debug_numint_vi#0:contig',
+        'c:debug_numint_vi#0:shape',
+        'c:debug_numint_vi#3:contig',
+        'c:debug_numint_vi#4:contig',
+        'c:debug_numint_vj#0:contig',
+        'c:debug_numint_vj#0:shape',
+        'c:debug_numint_vj#4:contig',
+        'c:debug_numint_vj#5:contig',
+        'c:debug_numint_vk#0:contig',
+        'c:debug_numint_vk#0:shape',
+        'c:debug_numint_vk#4:contig',
+        'c:debug_numint_vk#5:contig',
+    ],
+    'ciderpress/dft/feat_normalizer.py::FeatNormalizerList._check_shape': [
+        'p:x:ndim',
+        'p:x:shape',
+    ],
+    'ciderpress/dft/feat_normalizer.py::FeatNormalizerList.get_derivative_of_normed_features': [
+        'p:DX0T:ndim',
+        'p:DX0T:shape',
+        'p:X0T:ndim',
+        'p:X0T:shape',
+    ],
+    'ciderpress/dft/feat_normalizer.py::FeatNormalizerList.get_derivative_wrt_unnormed_features': [
+        'p:X0T:ndim',
+        'p:X0T:shape',
+        'p:df_dX0TN:ndim',
+        'p:df_dX0TN:shape',
+    ],
+    'ciderpress/dft/feat_normalizer.py::FeatNormalizerList.get_normalized_feature_vector': [
+        'p:X0T:ndim',
+        'p:X0T:shape',
+    ],
+    'ciderpress/dft/grids_indexer.py::AtomicGridsIndexer.reduce_angc_ylm_': [
+        'c:reduce_angc_to_ylm#0:contig',
+        'c:reduce_angc_to_ylm#0:dtype',
+        'c:reduce_angc_to_ylm#0:ndim',
+        'c:reduce_angc_to_ylm#0:shape',
+        'c:reduce_angc_to_ylm#2:contig',
+        'c:reduce_angc_to_ylm#2:dtype',
+        'c:reduce_angc_to_ylm#2:ndim',
+        'c:reduce_angc_to_ylm#2:shape',
+        'c:reduce_ylm_to_angc#0:contig',
+        'c:reduce_ylm_to_angc#0:dtype',
+        'c:reduce_ylm_to_angc#0:ndim',
+        'c:reduce_ylm_to_angc#0:shape',
+        'c:reduce_ylm_to_angc#2:contig',
+        'c:reduce_ylm_to_angc#2:dtype',
+        'c:reduce_ylm_to_angc#2:ndim',
+        'c:reduce_ylm_to_angc#2:shape',
+        'rel:reduce_angc_to_ylm#10 + reduce_angc_to_ylm#5 - reduce_angc_to_ylm#9 <= 0',
+        'rel:reduce_ylm_to_angc#10 + reduce_ylm_to_angc#5 - reduce_ylm_to_angc#9 <= 0',
+        'self.all_weights:size',
+    ],
+    'ciderpress/dft/lcao_convolutions.py::ATCBasis.__init__': [
+        'c:generate_atc_basis_set#1:contig',
+        'c:generate_atc_basis_set#2:contig',
+        'c:generate_atc_basis_set#3:contig',
+        'c:generate_atc_basis_set#4:contig',
+        'c:generate_atc_basis_set#5:contig',
+    ],
+    'ciderpress/dft/lcao_convolutions.py::ATCBasis.bas': [
+        'c:get_atco_bas#0:contig',
+        'c:get_atco_bas#0:shape',
+    ],
+    'ciderpress/dft/lcao_convolutions.py::ATCBasis.convert_rad2orb_': [
+        'c:contract_orb_to_rad#0:contig',
+        'c:contract_orb_to_rad#0:dtype',
+        'c:contract_orb_to_rad#0:ndim',
+        'c:contract_orb_to_rad#0:shape',
+        'c:contract_orb_to_rad#1:contig',
+        'c:contract_orb_to_rad#1:dtype',
+        'c:contract_orb_to_rad#1:ndim',
+        'c:contract_orb_to_rad#1:shape',
+        'c:contract_orb_to_rad#2:contig',
+        'c:contract_orb_to_rad#2:dtype',
+        'c:contract_orb_to_rad#2:ndim',
+        'c:contract_orb_to_rad#2:size',
+        'c:contract_orb_to_rad#3:contig',
+        'c:contract_orb_to_rad#3:dtype',
+        'c:contract_rad_to_orb#0:contig',
+        'c:contract_rad_to_orb#0:dtype',
+        'c:contract_rad_to_orb#0:ndim',
+        'c:contract_rad_to_orb#0:shape',
+        'c:contract_rad_to_orb#1:contig',
+        'c:contract_rad_to_orb#1:dtype',
+        'c:contract_rad_to_orb#1:ndim',
+        'c:contract_rad_to_orb#1:shape',
+        'c:contract_rad_to_orb#2:contig',
+        'c:contract_rad_to_orb#2:dtype',
+        'c:contract_rad_to_orb#2:ndim',
+        'c:contract_rad_to_orb#2:size',
+        'c:contract_rad_to_orb#3:contig',
+        'c:contract_rad_to_orb#3:dtype',
+        'rel:contract_orb_to_rad#7 - contract_orb_to_rad#8 + contract_orb_to_rad#9 <= 0',
+        'rel:contract_rad_to_orb#7 - contract_rad_to_orb#8 + contract_rad_to_orb#9 <= 0',
+    ],
+    'ciderpress/dft/lcao_convolutions.py::ATCBasis.env': [
+        'c:get_atco_env#0:contig',
+        'c:get_atco_env#0:shape',
+    ],
+    'ciderpress/dft/lcao_convolutions.py::ConvolutionCollection.__init__': [
+        'c:generate_convolution_collection#3:contig',
+        'c:generate_convolution_collection#4:contig',
+        'c:generate_convolution_collection#4:size',
+        'c:generate_convolution_collection#5:contig',
+    ],
+    'ciderpress/dft/lcao_convolutions.py::ConvolutionCollection.multiply_atc_integrals': [
+        'c:multiply_atc_integrals#0:contig',
+        'c:multiply_atc_integrals#0:ndim',
+        'c:multiply_atc_integrals#0:shape',
+        'c:multiply_atc_integrals#1:contig',
+        'c:multiply_atc_integrals#1:ndim',
+        'c:multiply_atc_integrals#1:shape',
+    ],
+    'ciderpress/dft/lcao_convolutions.py::ConvolutionCollectionK.multiply_atc_integrals': [
+        'c:multiply_atc_integrals_vk#0:contig',
+        'c:multiply_atc_integrals_vk#0:ndim',
+        'c:multiply_atc_integrals_vk#0:shape',
+        'c:multiply_atc_integrals_vk#1:contig',
+        'c:multiply_atc_integrals_vk#1:ndim',
+        'c:multiply_atc_integrals_vk#1:shape',
+    ],
+    'ciderpress/dft/lcao_interpolation.py::LCAOInterpolator._compute_spline_ind_order': [
+        'c:compute_spline_ind_order_new#1:contig',
+        'c:compute_spline_ind_order_new#1:shape',
+    ],
+    'ciderpress/dft/lcao_interpolation.py::LCAOInterpolator._contract_grad_terms': [
+        'c:contract_grad_terms_parallel#6:contig',
+    ],
+    'ciderpress/dft/lcao_interpolation.py::LCAOInterpolator._interpolate_nopar_atom': [
+        'c:compute_mol_convs_single_new#0:shape',
+        'c:compute_pot_convs_single_new#0:shape',
+        'p:f_arlpq:shape',
+    ],
+    'ciderpress/dft/lcao_interpolation.py::LCAOInterpolator._interpolate_nopar_atom_deriv': [
+        'c:compute_mol_convs_single_new#0:contig',
+        'c:compute_mol_convs_single_new#0:shape',
+        'p:f_arlpq:shape',
+        'p:f_gq:shape',
+    ],
+    'ciderpress/dft/lcao_interpolation.py::LCAOInterpolator._orb2spline_': [
+        'c:project_conv_to_spline#0:contig',
+        'c:project_conv_to_spline#0:ndim',
+        'c:project_conv_to_spline#0:shape',
+        'c:project_conv_to_spline#1:contig',
+        'c:project_conv_to_spline#1:shape',
+        'c:project_conv_to_spline#2:contig',
+        'c:project_spline_to_conv#0:contig',
+        'c:project_spline_to_conv#0:ndim',
+        'c:project_spline_to_conv#0:shape',
+        'c:project_spline_to_conv#1:contig',
+        'c:project_spline_to_conv#1:shape',
+        'c:project_spline_to_conv#2:contig',
+        'rel:project_conv_to_spline#10 + project_conv_to_spline#4 - project_conv_to_spline#7 <= 0',
+        'rel:project_conv_to_spline#4 - project_conv_to_spline#8 + project_conv_to_spline#9 <= 0',
+        'rel:project_spline_to_conv#10 + project_spline_to_conv#4 - project_spline_to_conv#7 <= 0',
+        'rel:project_spline_to_conv#4 - project_spline_to_conv#8 + project_spline_to_conv#9 <= 0',
+    ],
+    'ciderpress/dft/lcao_interpolation.py::LCAOInterpolator._set_num_ai': [
+        'c:compute_num_spline_contribs_new#0:contig',
+        'c:compute_num_spline_contribs_new#0:shape',
+        'c:compute_num_spline_contribs_new#1:contig',
+        'c:compute_num_spline_contribs_new#1:shape',
+    ],
+    'ciderpress/dft/plans.py::NLDFSplinePlan.get_a2q_fast': [
+        'c:cider_ind_clip#0:contig',
+        'c:cider_ind_clip#0:shape',
+        'c:cider_ind_clip#1:contig',
+        'c:cider_ind_clip#1:shape',
+        'c:cider_ind_etb#0:contig',
+        'c:cider_ind_etb#0:shape',
+        'c:cider_ind_etb#1:contig',
+        'c:cider_ind_etb#1:shape',
+        'c:cider_ind_zexp#0:contig',
+        'c:cider_ind_zexp#0:shape',
+        'c:cider_ind_zexp#1:contig',
+        'c:cider_ind_zexp#1:shape',
+    ],
+    'ciderpress/dft/plans.py::_get_ovlp_fit_interpolation_coefficients': [
+        'c:cider_coefs_gto_gq#0:contig',
+        'c:cider_coefs_gto_gq#0:shape',
+        'c:cider_coefs_gto_gq#1:contig',
+        'c:cider_coefs_gto_gq#1:shape',
+        'c:cider_coefs_gto_gq#2:contig',
+        'c:cider_coefs_gto_gq#3:contig',
+        'c:cider_coefs_gto_qg#0:contig',
+        'c:cider_coefs_gto_qg#0:shape',
+        'c:cider_coefs_gto_qg#1:contig',
+        'c:cider_coefs_gto_qg#1:shape',
+        'c:cider_coefs_gto_qg#2:contig',
+        'c:cider_coefs_gto_qg#3:contig',
+    ],
+    'ciderpress/dft/pwutil.py::_eval_cubic_interp': [
+        'c:eval_cubic_interp#0:contig',
+        'c:eval_cubic_interp#0:dtype',
+        'c:eval_cubic_interp#1:contig',
+        'c:eval_cubic_interp#1:dtype',
+        'c:eval_cubic_interp#2:contig',
+        'c:eval_cubic_interp#2:dtype',
+        'c:eval_cubic_interp#2:shape',
+        'c:eval_cubic_interp#3:contig',
+        'c:eval_cubic_interp#3:shape',
+        'c:eval_cubic_interp_noderiv#0:contig',
+        'c:eval_cubic_interp_noderiv#0:dtype',
+        'c:eval_cubic_interp_noderiv#1:contig',
+        'c:eval_cubic_interp_noderiv#1:dtype',
+        'c:eval_cubic_interp_noderiv#2:contig',
+        'c:eval_cubic_interp_noderiv#2:dtype',
+        'c:eval_cubic_interp_noderiv#2:shape',
+        'c:eval_cubic_interp_noderiv#3:contig',
+        'c:eval_cubic_interp_noderiv#3:shape',
+    ],
+    'ciderpress/dft/pwutil.py::_eval_cubic_spline': [
+        'c:eval_cubic_spline#0:contig',
+        'c:eval_cubic_spline#1:contig',
+        'c:eval_cubic_spline#1:shape',
+        'c:eval_cubic_spline#2:contig',
+        'c:eval_cubic_spline#3:contig',
+        'c:eval_cubic_spline#3:size',
+        'c:eval_cubic_spline_deriv#0:contig',
+        'c:eval_cubic_spline_deriv#1:contig',
+        'c:eval_cubic_spline_deriv#1:shape',
+        'c:eval_cubic_spline_deriv#2:contig',
+        'c:eval_cubic_spline_deriv#3:contig',
+        'c:eval_cubic_spline_deriv#3:size',
+    ],
+    'ciderpress/dft/pwutil.py::eval_pasdw_funcs': [
+        'c:eval_pasdw_funcs#0:contig',
+        'c:eval_pasdw_funcs#0:shape',
+        'c:eval_pasdw_funcs#1:contig',
+        'c:eval_pasdw_funcs#2:contig',
+        'c:eval_pasdw_funcs#2:shape',
+        'c:eval_pasdw_funcs#3:contig',
+        'c:eval_pasdw_funcs#3:shape',
+        'c:eval_pasdw_funcs#4:contig',
+        'c:eval_pasdw_funcs#4:shape',
+    ],
+    'ciderpress/dft/pwutil.py::mulexp': [
+        'c:mulexp#0:size',
+        'c:mulexp#1:size',
+        'c:mulexp#2:size',
+    ],
+    'ciderpress/dft/pwutil.py::pasdw_reduce': [
+        'c:pasdw_reduce_g#0:contig',
+        'c:pasdw_reduce_g#0:size',
+        'c:pasdw_reduce_g#1:contig',
+        'c:pasdw_reduce_g#2:contig',
+        'c:pasdw_reduce_g#3:contig',
+        'c:pasdw_reduce_g#3:dtype',
+        'c:pasdw_reduce_g#3:ndim',
+        'c:pasdw_reduce_g#3:shape',
+        'c:pasdw_reduce_i#0:contig',
+        'c:pasdw_reduce_i#0:size',
+        'c:pasdw_reduce_i#1:contig',
+        'c:pasdw_reduce_i#2:contig',
+        'c:pasdw_reduce_i#3:contig',
+        'c:pasdw_reduce_i#3:dtype',
+        'c:pasdw_reduce_i#3:ndim',
+        'c:pasdw_reduce_i#3:shape',
+    ],
+    'ciderpress/dft/pwutil.py::recursive_sph_harm': [
+        'c:recursive_sph_harm_vec#2:contig',
+        'c:recursive_sph_harm_vec#3:contig',
+        'c:recursive_sph_harm_vec#3:shape',
+    ],
+    'ciderpress/dft/pwutil.py::recursive_sph_harm_deriv': [
+        'c:recursive_sph_harm_deriv_vec#2:contig',
+        'c:recursive_sph_harm_deriv_vec#3:contig',
+        'c:recursive_sph_harm_deriv_vec#3:shape',
+        'c:recursive_sph_harm_deriv_vec#4:contig',
+        'c:recursive_sph_harm_deriv_vec#4:shape',
+    ],
+    'ciderpress/dft/xc_evaluator.py::GlobalLinearEvaluator.__call__': [
+        'p:dres:shape',
+        'p:res:shape',
+    ],
+    'ciderpress/dft/xc_evaluator.py::GlobalLinearEvaluator.__init__': [
+        'self.consts:contig',
+    ],
+    'ciderpress/dft/xc_evaluator.py::KernelEvaluator.__call__': [
+        'p:dres:shape',
+        'p:res:shape',
+    ],
+    'ciderpress/dft/xc_evaluator.py::ModelWithNormalizer.__call__': [
+        'p:X0T:ndim',
+    ],
+    'ciderpress/dft/xc_evaluator.py::ModelWithNormalizer.__init__': [
+        'p:model:nfeat',
+        'p:normalizer:nfeat',
+    ],
+    'ciderpress/dft/xc_evaluator.py::NNEvaluator.__call__': [
+        'p:dres:shape',
+        'p:res:shape',
+    ],
+    'ciderpress/dft/xc_evaluator.py::RBFEvaluator.__call__': [
+        'c:evaluate_se_kernel#0:contig',
+        'c:evaluate_se_kernel#0:shape',
+        'c:evaluate_se_kernel#1:contig',
+        'c:evaluate_se_kernel#1:shape',
+        'c:evaluate_se_kernel#2:contig',
+        'c:evaluate_se_kernel_antisym#0:contig',
+        'c:evaluate_se_kernel_antisym#0:shape',
+        'c:evaluate_se_kernel_antisym#1:contig',
+        'c:evaluate_se_kernel_antisym#1:shape',
+        'c:evaluate_se_kernel_antisym#2:contig',
+        'c:evaluate_se_kernel_spin#0:contig',
+        'c:evaluate_se_kernel_spin#0:shape',
+        'c:evaluate_se_kernel_spin#1:contig',
+        'c:evaluate_se_kernel_spin#1:shape',
+        'c:evaluate_se_kernel_spin#2:contig',
+    ],
+    'ciderpress/dft/xc_evaluator.py::RBFEvaluator.__init__': [
+        'self._X1ctrl:contig',
+        'self._alpha:contig',
+        'self._exps:contig',
+        'self._indexes:contig',
+    ],
+    'ciderpress/dft/xc_evaluator.py::SpinRBFEvaluator.__call__': [
+        'p:X1:ndim',
+        'p:X1:shape',
+    ],
+    'ciderpress/dft/xc_evaluator.py::SplineSetEvaluator.__call__': [
+        'p:dres:shape',
+    ],
+    'ciderpress/dft/xc_evaluator.py::SplineSetEvaluator.__init__': [
+        'p:coeff_sets:shape',
+        'p:ind_sets:shape',
+        'p:spline_grids:shape',
+    ],
+    'ciderpress/lib/fft_plan.py::FFTWrapper.call': [
+        'c:read_fft_output#1:contig',
+        'c:read_fft_output#1:shape',
+        'c:write_fft_input#1:shape',
+    ],
+    'ciderpress/lib/mpi_fft_plan.py::MPIFFTWrapper.__init__': [
+        'c:allocate_mpi_fft3d_plan_world#0:contig',
+    ],
+    'ciderpress/lib/mpi_fft_plan.py::MPIFFTWrapper.call': [
+        'c:read_mpi_fft3d_output#1:contig',
+        'c:read_mpi_fft3d_output#1:shape',
+        'c:write_mpi_fft3d_input#1:dtype',
+        'c:write_mpi_fft3d_input#1:shape',
+    ],
+    'ciderpress/pyscf/frac_lapl.py::FracLaplBuf.__init__': [
+        'c:initialize_spline_1f1#0:contig',
+        'c:initialize_spline_1f1#0:shape',
+        'c:initialize_spline_1f1#1:contig',
+        'c:initialize_spline_1f1#1:shape',
+    ],
+    'ciderpress/pyscf/gen_cider_grid.py::gen_atomic_grids_cider': [
+        'c:recursive_sph_harm_vec#2:contig',
+        'c:recursive_sph_harm_vec#3:contig',
+        'c:recursive_sph_harm_vec#3:shape',
+    ],
+    'ciderpress/pyscf/pbc/sdmx_fft.py::_contract_convolution': [
+        'c:contract_convolution_d#1:dtype',
+        'c:contract_convolution_d#2:dtype',
+        'c:contract_convolution_z#1:dtype',
+        'c:contract_convolution_z#2:dtype',
+    ],
+    'ciderpress/pyscf/pbc/sdmx_fft.py::_fast_conj': [
+        'c:fast_conj#0:contig',
+    ],
+    'ciderpress/pyscf/pbc/sdmx_fft.py::_mul_add_d': [
+        'c:parallel_mul_add_d#0:contig',
+        'c:parallel_mul_add_d#0:dtype',
+        'c:parallel_mul_add_d#0:ndim',
+        'c:parallel_mul_add_d#0:shape',
+        'c:parallel_mul_add_d#1:contig',
+        'c:parallel_mul_add_d#1:dtype',
+        'c:parallel_mul_add_d#1:ndim',
+        'c:parallel_mul_add_d#1:shape',
+        'c:parallel_mul_add_d#2:contig',
+        'c:parallel_mul_add_d#2:dtype',
+        'c:parallel_mul_add_d#2:shape',
+    ],
+    'ciderpress/pyscf/pbc/sdmx_fft.py::_mul_add_z': [
+        'c:parallel_mul_add_z#0:contig',
+        'c:parallel_mul_add_z#0:dtype',
+        'c:parallel_mul_add_z#0:ndim',
+        'c:parallel_mul_add_z#0:shape',
+        'c:parallel_mul_add_z#1:contig',
+        'c:parallel_mul_add_z#1:dtype',
+        'c:parallel_mul_add_z#1:ndim',
+        'c:parallel_mul_add_z#1:shape',
+        'c:parallel_mul_add_z#2:contig',
+        'c:parallel_mul_add_z#2:dtype',
+        'c:parallel_mul_add_z#2:shape',
+    ],
+    'ciderpress/pyscf/pbc/sdmx_fft.py::_mul_dz': [
+        'c:parallel_mul_dz#0:contig',
+        'c:parallel_mul_dz#0:dtype',
+        'c:parallel_mul_dz#0:ndim',
+        'c:parallel_mul_dz#0:shape',
+        'c:parallel_mul_dz#1:contig',
+        'c:parallel_mul_dz#1:dtype',
+        'c:parallel_mul_dz#1:ndim',
+        'c:parallel_mul_dz#1:shape',
+        'c:parallel_mul_dz#2:contig',
+        'c:parallel_mul_dz#2:dtype',
+        'c:parallel_mul_dz#2:shape',
+    ],
+    'ciderpress/pyscf/pbc/sdmx_fft.py::_mul_z': [
+        'c:parallel_mul_z#0:contig',
+        'c:parallel_mul_z#0:dtype',
+        'c:parallel_mul_z#0:ndim',
+        'c:parallel_mul_z#0:shape',
+        'c:parallel_mul_z#1:contig',
+        'c:parallel_mul_z#1:dtype',
+        'c:parallel_mul_z#1:ndim',
+        'c:parallel_mul_z#1:shape',
+        'c:parallel_mul_z#2:contig',
+        'c:parallel_mul_z#2:dtype',
+        'c:parallel_mul_z#2:shape',
+    ],
+    'ciderpress/pyscf/pbc/sdmx_fft.py::_weight_symm_gpts': [
+        'c:weight_symm_gpts#0:contig',
+        'c:weight_symm_gpts#0:dtype',
+        'c:weight_symm_gpts#0:ndim',
+        'c:weight_symm_gpts#0:shape',
+    ],
+    'ciderpress/pyscf/pbc/sdmx_fft.py::_zero_even_edges_fft': [
+        'c:zero_even_edges_fft#0:contig',
+        'c:zero_even_edges_fft#0:dtype',
+        'c:zero_even_edges_fft#0:size',
+    ],
+    'ciderpress/pyscf/pbc/sdmx_fft.py::fft_fast': [
+        'c:run_ffts#0:contig',
+        'c:run_ffts#0:dtype',
+    ],
+    'ciderpress/pyscf/pbc/sdmx_fft.py::fft_grad_fast': [
+        'c:run_ffts#0:contig',
+        'c:run_ffts#0:dtype',
+        'c:run_ffts#0:ndim',
+        'c:run_ffts#0:shape',
+        'p:Gv:contig',
+        'p:Gv:ndim',
+        'p:Gv:shape',
+    ],
+    'ciderpress/pyscf/pbc/sdmx_fft.py::get_ao_recip': [
+        'c:apply_orb_phases#1:contig',
+        'c:apply_orb_phases#1:shape',
+        'c:apply_orb_phases#2:contig',
+        'c:apply_orb_phases#2:shape',
+        'c:apply_orb_phases#3:contig',
+        'c:apply_orb_phases#4:contig',
+    ],
+    'ciderpress/pyscf/pbc/sdmx_fft.py::get_recip_convolutions': [
+        'c:recip_conv_kernel_gaussdiff#0:contig',
+        'c:recip_conv_kernel_gaussdiff#1:contig',
+        'c:recip_conv_kernel_ws#0:contig',
+        'c:recip_conv_kernel_ws#1:contig',
+        'c:recip_conv_kernel_ws#2:dtype',
+        'c:recip_conv_kernel_ws#2:ndim',
+        'c:recip_conv_kernel_ws#2:shape',
+        'c:recip_conv_kernel_ws#3:contig',
+        'c:recip_conv_kernel_ws#4:contig',
+        'c:recip_conv_kernel_ws#5:contig',
+    ],
+    'ciderpress/pyscf/pbc/util.py::FFTInterpolator.interpolate': [
+        'p:out:contig',
+        'p:out:dtype',
+        'p:out:shape',
+    ],
+    'ciderpress/pyscf/sdmx.py::EXXSphGenerator._contract_ao_to_bas_helper': [
+        'c:SDMXcontract_ao_to_bas_l1#12:contig',
+        'c:SDMXcontract_ao_to_bas_l1#13:contig',
+        'c:SDMXcontract_ao_to_bas_l1_bwd#12:contig',
+        'c:SDMXcontract_ao_to_bas_l1_bwd#13:contig',
+    ],
+    'ciderpress/pyscf/sdmx.py::EXXSphGenerator._contract_ao_to_bas_single_': [
+        'c:SDMXcontract_ao_to_bas_grid#14:contig',
+        'c:SDMXcontract_ao_to_bas_grid#14:ndim',
+        'c:SDMXcontract_ao_to_bas_grid#15:contig',
+        'c:SDMXcontract_ao_to_bas_grid#15:ndim',
+        'c:SDMXcontract_ao_to_bas_grid_bwd#14:contig',
+        'c:SDMXcontract_ao_to_bas_grid_bwd#14:ndim',
+        'c:SDMXcontract_ao_to_bas_grid_bwd#15:contig',
+        'c:SDMXcontract_ao_to_bas_grid_bwd#15:ndim',
+    ],
+    'ciderpress/pyscf/sdmx.py::EXXSphGenerator._get_ylm': [
+        'c:SDMXylm_loop#4:contig',
+    ],
+    'ciderpress/pyscf/sdmx.py::EXXSphGenerator.get_features': [
+        'c:contract_shl_to_alpha_l1#3:contig',
+        'c:contract_shl_to_alpha_l1#3:shape',
+        'c:contract_shl_to_alpha_l1#4:contig',
+        'p:coords:contig',
+    ],
+    'ciderpress/pyscf/sdmx.py::eval_conv_shells': [
+        'c:SDMXeval_rad_loop#10:contig',
+        'c:SDMXeval_rad_loop#12:contig',
+        'c:SDMXeval_rad_loop#14:contig',
+        'c:SDMXeval_rad_loop#8:contig',
+    ],
+    'ciderpress/pyscf/sdmx_slow.py::eval_conv_gto': [
+        'p:coords:contig',
+    ],
+    'ciderpress/pyscf/sdmx_slow.py::eval_conv_gto_fast': [
+        'c:SDMXeval_loop#11:contig',
+        'c:SDMXeval_loop#13:contig',
+        'c:SDMXeval_loop#15:contig',
+        'c:SDMXeval_loop#9:contig',
+        'c:SDMXylm_loop#2:contig',
+        'c:SDMXylm_loop#4:contig',
+    ],
 }
 
 
@@ -1099,7 +1418,7 @@ def analyse(chk):
     chk.floor("param-guards", 29, "frozen table of 30 guarded parameter names")
     chk.floor("dispatch", 24, "multi-arm string ladders in the six anchored modules")
     chk.floor("expnt-guard", 2, "guard on every exit + flag default")
-    chk.floor("guards", 218, "233 guard signatures frozen today")
+    chk.floor("guards", 387, "407 guard signatures frozen today")
     chk.floor("reject-mode", 20, "mode/sl_level/rho_mult/rho_damp x classes")
     chk.assumptions += [
         "x86-64 System V calling convention; ctypes without argtypes passes c_int/c_double/pointers as built",
